@@ -124,41 +124,32 @@ theorem seqOf_eqv {v w : Val} (h : Eqv v w) (wv : WF v) (ww : WF w) : Eqv (.seq 
     rw [sortedStrs_meqv ⟨h1, h2⟩ (WF.map_iff.mp wv) (WF.map_iff.mp ww)]
     exact Eqv.seq_refl_strs _
 
-/-! ### Go `==` and the `extra_hosts` filter -/
+/-! ### `sameScalar` and the `extra_hosts` filter -/
 
-theorem ifaceEq_eqv {x x' y y' : Val} (hx : Eqv x x') (hy : Eqv y y') : ifaceEq x y = ifaceEq x' y' := by
+theorem sameScalar_eqv {x x' y y' : Val} (hx : Eqv x x') (hy : Eqv y y') : sameScalar x y = sameScalar x' y' := by
   cases hx <;> cases hy <;> rfl
 
-theorem containsIface_eqv {v v' : Val} (hv : Eqv v v') : ∀ {xs ys : List Val}, Eqv (.seq xs) (.seq ys) →
-    containsIface v xs = containsIface v' ys := by
+theorem any_sameScalar_eqv {v v' : Val} (hv : Eqv v v') : ∀ {xs ys : List Val}, Eqv (.seq xs) (.seq ys) →
+    xs.any (fun x => sameScalar x v) = ys.any (fun x => sameScalar x v') := by
   intro xs
   induction xs with
   | nil => intro ys h; cases h; rfl
   | cons x r ih =>
     intro ys h
     cases h with | seqCons hx hr =>
-    simp only [containsIface, ifaceEq_eqv hx hv, ih hr]
-
-/-- optional lists related elementwise -/
-def OptSeqEqv : Option (List Val) → Option (List Val) → Prop
-  | some l, some l' => Eqv (.seq l) (.seq l')
-  | none, none => True
-  | _, _ => False
+    simp only [List.any_cons, sameScalar_eqv hx hv, ih hr]
 
 theorem keepNew_eqv {rs rs' : List Val} (hr : Eqv (.seq rs) (.seq rs')) : ∀ {ls ls' : List Val}, Eqv (.seq ls) (.seq ls') →
-    OptSeqEqv (keepNew rs ls) (keepNew rs' ls') := by
+    Eqv (.seq (keepNew rs ls)) (.seq (keepNew rs' ls')) := by
   intro ls
   induction ls with
   | nil => intro ls' h; cases h; exact .seqNil
   | cons v r ih =>
     intro ls' h
     cases h with | seqCons hv hrest =>
-    simp only [keepNew, containsIface_eqv hv hr]
-    have := ih hrest
+    simp only [keepNew, any_sameScalar_eqv hv hr]
     split
-    · trivial
-    · exact this
-    · cases h1 : keepNew rs r <;> cases h2 : keepNew rs' _ <;> simp only [h1, h2, OptSeqEqv, Option.map] at this ⊢
-      · exact .seqCons hv this
+    · exact ih hrest
+    · exact .seqCons hv (ih hrest)
 
 end CV.Deep
